@@ -263,7 +263,19 @@ def main(argv):
     cond = conds[cname]
     if mode == 'concrete':
         args = json.loads(argv[5])
+        funcs = set()
+        if os.environ.get('VF_TRACE'):
+            # record which functions of /repo's gemato the harness really enters
+            def prof(frame, event, arg):
+                if event == 'call':
+                    fn = frame.f_code.co_filename
+                    if '/gemato/' in fn and '/verif/' not in fn:
+                        funcs.add(os.path.basename(fn)[:-3] + '.' + frame.f_code.co_qualname)
+            sys.setprofile(prof)
         out = run_concrete(cond, args)
+        sys.setprofile(None)
+        if funcs:
+            out['functions'] = sorted(funcs)
         if cond.replay_real is not None and not out.get('ok', True):
             try:
                 out['real'] = cond.replay_real(args)
